@@ -1337,6 +1337,21 @@ Definition loc_from_text (st : tstate) : res (tval * tstate) :=
   else if (alt <? -10000000) || (alt >=? 4284967296) then Internal iValueError
   else Ok (VLoc (fst la) (fst lo) alt (the_dbl size) (the_dbl hp) (the_dbl vp), snd ts).
 
+(* Gateway._check *)
+Definition gw_check (g a : Z) (gw : gwval) : res tval :=
+  if g =? 0 then
+    match gw with
+    | GwText t => if zlist_eqb t [46] then Ok (VGw g a GwNone) else Internal iValueError
+    | _ => Internal iValueError
+    end
+  else if g =? 1 then
+    match gw with GwText t => do _ <- ipv4_aton t; Ok (VGw g a gw) | _ => Internal iValueError end
+  else if g =? 2 then
+    match gw with GwText t => do _ <- ipv6_aton t; Ok (VGw g a gw) | _ => Internal iValueError end
+  else if g =? 3 then
+    match gw with GwName _ => Ok (VGw g a gw) | _ => Internal iValueError end
+  else Internal iValueError.
+
 (* token-level part of cls.from_text: what is read (and converted) before the constructor runs *)
 Definition parse_field (c : pctx) (f : tfield) (st : tstate) : res (tval * tstate) :=
   match f with
@@ -1409,10 +1424,11 @@ Definition parse_field (c : pctx) (f : tfield) (st : tstate) : res (tval * tstat
       do as_ <- (if ipsec then get_uint max8 (snd gs) 10
                  else if fst gs >? 127 then Lib eSyntax else Ok (0, snd gs));
       let g := fst gs in
+      (* Gateway.from_text ends with cls(gateway_type, gateway): _check runs here, before the key is read *)
       if (g =? 0) || (g =? 1) || (g =? 2) then
-        do ts <- get_string (snd as_) 0; Ok (VGw g (fst as_) (GwText (fst ts)), snd ts)
+        do ts <- get_string (snd as_) 0; do v <- gw_check g (fst as_) (GwText (fst ts)); Ok (v, snd ts)
       else if g =? 3 then
-        do ns <- get_name c (snd as_); Ok (VGw g (fst as_) (GwName (fst ns)), snd ns)
+        do ns <- get_name c (snd as_); do v <- gw_check g (fst as_) (GwName (fst ns)); Ok (v, snd ns)
       else Lib eSyntax
   | FBitmap =>
       do ts <- get_remaining st 0;
@@ -1454,19 +1470,6 @@ Definition ctor_field (f : tfield) (v : tval) : res tval :=
   | FWksProto, VInt z => if (z <? 0) || (z >? 255) then Internal iValueError else Ok v
   | FGposStr, VBytes t =>     (* _as_bytes(value, True, 255): str.encode(), at most 255 octets *)
       do e <- utf8_encode t; if zlen e >? 255 then Internal iValueError else Ok (VBytes e)
-  | FGw _, VGw g a gw =>      (* Gateway._check *)
-      if g =? 0 then
-        match gw with
-        | GwText t => if zlist_eqb t [46] then Ok (VGw g a GwNone) else Internal iValueError
-        | _ => Internal iValueError
-        end
-      else if g =? 1 then
-        match gw with GwText t => do _ <- ipv4_aton t; Ok v | _ => Internal iValueError end
-      else if g =? 2 then
-        match gw with GwText t => do _ <- ipv6_aton t; Ok v | _ => Internal iValueError end
-      else if g =? 3 then
-        match gw with GwName _ => Ok v | _ => Internal iValueError end
-      else Internal iValueError
   | FAlg, VBytes t => do z <- alg_from_text t; Ok (VInt z)
   | FTag, VBytes b =>
       if (zlen b >? 255) || is_nil b || negb (forallb is_alnum b) then Internal iValueError else Ok v
